@@ -4,8 +4,6 @@ package txkit
 
 import (
 	"fmt"
-	"runtime"
-	"time"
 
 	"github.com/ElrondNetwork/elrond-go/data/transaction"
 	"github.com/ElrondNetwork/elrond-go/storage/txcache"
@@ -63,23 +61,18 @@ func (t TxSpec) Wrap() *txcache.WrappedTransaction {
 	}
 }
 
-// Quiesce waits until no asynchronous sweep is pending and returns a snapshot taken with the sweep mutex held.
-// ok is false when the sweep did not finish within the (generous, iteration-counted) bound.
-func Quiesce(cache *txcache.TxCache) (snap txcache.VerifSnapshotData, ok bool) {
-	for i := 0; i < 200000; i++ {
-		cache.VerifLockSweep()
-		snap = cache.VerifSnapshot()
-		cache.VerifUnlockSweep()
-		if snap.SweepPending == 0 {
-			return snap, true
-		}
-		if i < 1000 {
-			runtime.Gosched()
-		} else {
-			time.Sleep(50 * time.Microsecond)
-		}
-	}
-	return snap, false
+// Quiesce brings the cache to a quiescent point without waiting for the scheduler: it runs the pending sweep
+// synchronously through the verif hook (the same function the goroutine started by SelectTransactions runs; if that
+// goroutine is in the middle of its sweep this blocks on the sweeping mutex until it is done) and then takes a
+// snapshot with the sweeping mutex held. cleared is false when senders collected for sweeping are still listed
+// although a sweep has just completed - the code clears the list at the end of every sweep, so that must not happen
+// as long as no selection is running concurrently.
+func Quiesce(cache *txcache.TxCache) (snap txcache.VerifSnapshotData, cleared bool) {
+	cache.VerifSweepNow()
+	cache.VerifLockSweep()
+	snap = cache.VerifSnapshot()
+	cache.VerifUnlockSweep()
+	return snap, snap.SweepPending == 0
 }
 
 // SenderView finds a sender's list in a snapshot
